@@ -10,8 +10,11 @@ def _once(sc, prefix):
     from .scen import Net
     net = Net(sc, prefix)
     try:
-        for m in sc['msgs']:
-            net.submit(m)
+        for i, m in enumerate(sc['msgs']):
+            if sc.get('rx_threads'):
+                net.w.spawn(net.submit, (m,), name='app%d' % i)
+            else:
+                net.submit(m)
         net.w.run_for(3.0)
         nested = [n.name for n in net.bus.nodes if n.nested_rx]
         return repr((net.outcome(), [(f.t, f.idx) for f in net.bus.log], net.chooser.points, nested))
@@ -27,6 +30,10 @@ def quick():
               'wake_grid': WAKES, 'msgs': [msg(0x10, 'p2p', 0x20, size), msg(0x20, 'bam2', 0x01, size)]}
         cases.append((sc, []))
         cases.append((sc, [('wake', 0), ('wake', 0), ('wake', 0), ('lat', 1)]))
+    # every party on a thread of its own, blocking driver, frame visible before the send call returns
+    for dll, size in (('j1939-21', 20), ('j1939-22', 150)):
+        cases.append(({'dll': dll, 'stacks': stacks3(2, 1, 1), 'base_lat': 0.2e-3, 'send_cost': 2e-3, 'send_visible': 0.0,
+                       'rx_threads': True, 'msgs': [msg(0x10, 'p2p', 0x20, size), msg(0x20, 'bam2', 0x01, size)]}, []))
     for sc, prefix in cases:
         try:
             a = _once(sc, prefix)
